@@ -18,7 +18,7 @@ TIERS = {
 }
 
 RULE = ('each run = 1..3 corpus calls with explicit version/level/delimiters (parse_*, datatype_factory, Message / '
-        'Segment / Component construction and edits, to_er7(encoding_chars=), validate), each executed once under the '
+        'Segment / Component construction and edits, surplus fields after a trailing varies field, segments valued parent-less and then attached, to_er7(encoding_chars=), validate), each executed once under the '
         'shipped defaults (reference) and once with seeded hl7apy.set_default_* calls landing between calls, while an '
         'element is alive, immediately before the j-th consultation of a default, or at the n-th source line of the '
         'call; non-trivial = at least one flip landed and the call consulted a default or kept an element alive; '
